@@ -17,7 +17,7 @@ ASSUMPTIONS = [
 # a rule instance is owned by one property, but the clause it decides can be a necessary condition of others as well;
 # those checks run it too (one defect is then reported under every property it breaks)
 EXTRA_PROPS = {
-    'R-LIST-C06': ['C01', 'C07'], 'R-LIST-C07': ['C01', 'C06'], 'R-LIST-C03': ['C04'],
+    'R-LIST-C06': ['C01', 'C07'], 'R-LIST-C07': ['C01', 'C06'], 'R-LIST-C03': ['C04', 'C08', 'C01'],
     'R-ELECT-C08': ['C01', 'C02', 'C09'], 'R-ELECT-C10': ['C01', 'C02'], 'R-ELECT-C13': ['C01', 'C02'], 'R-ELECT-C14': ['C01', 'C02'], 'R-ELECT-C19': ['C01', 'C02'], 'R-ELECT-C06': ['C01'],
     'R-ELECT-C01': ['C04', 'C05', 'C02'],
     'R-DEREG-C07': ['C04'], 'R-DEREG-C14': ['C04'], 'R-DEREG-C19': ['C04'], 'R-DEREG-C13': ['C04'], 'R-DEREG-C18': ['C04'], 'R-DEREG-C10': ['C04'],
